@@ -62,3 +62,24 @@ package executor
 //@     requires [cursor_sees_every_row] sg == i
 //@   call (*LimitTransform).AppendPoint
 //@     requires [emit_window] arg1 == i && trans.Count > trans.offset && trans.Count <= trans.offset + trans.limit
+
+// Sort-merge of several streams: when one stream remains, its current chunk may be copied whole only if nothing of it
+// has been emitted yet (read position 0) and the output buffer is empty; otherwise the rows before the read
+// position would be emitted twice, depending on where the output buffer happened to be flushed.
+//@ func (*SortMergeTransf).updateWithSingleChunk
+//@   requires trans != nil && trans.currItem != nil
+//@   call .CopyTo
+//@     requires [whole_chunk_only_if_untouched] trans.currItem.Index == 0
+//@   call .Len
+//@     frame nothing
+
+// A LIMIT n OFFSET k pushed below the node exchange must let n+k rows through and skip none (the top limit does the
+// skipping): the limit is widened by the offset BEFORE the offset is cleared.
+//@ func NewPlanBySchemaAndSrcPlan
+//@   ghost w bool = false
+//@   store LimitTransformParameters.Limit
+//@     requires [widened_by_offset] val == limit.LimitPara.Limit + limit.LimitPara.Offset
+//@     set w = true
+//@   store LimitTransformParameters.Offset
+//@     requires [offset_cleared_after_widening] w && val == 0
+//@     set w = false
